@@ -149,7 +149,7 @@ def cell_simple(b: bool) -> bool:
     # CrossHair's Decimal model fails on symbolic strings): the lattice corners only
     cb = Cell(b)
     ok = cb.value is b and cb.type == "boolean" and _fresh(cb).value is b
-    for n in (0, -3, 12, 10 ** 20):
+    for n in (0, -3, 12, 10 ** 20, 10 ** 30, -(2 ** 100)):
         cn = Cell(n)
         ok = ok and cn.value == n and isinstance(cn.value, int) and not isinstance(cn.value, bool) and cn.type == "float"
     cd = Cell(Decimal("1.50"))
@@ -251,7 +251,7 @@ def carrier_simple(b: bool) -> bool:
     cls = CARRIERS[CARRIER]
     e = cls("nm", b)
     ok = e.get_value() is b and _fresh(e).get_value(get_type=True) == (b, "boolean")
-    for n in (0, -3, 12, 10 ** 20):
+    for n in (0, -3, 12, 10 ** 20, 10 ** 30, -(2 ** 100)):
         en = cls("nm", n)
         g = en.get_value()
         ok = ok and g == n and isinstance(g, int) and not isinstance(g, bool)
